@@ -28,7 +28,7 @@ var tagsLDTable = []rune{0xe9, 0x3bb, 0x663, 0x4e16}
 var tagsAlphabet = []string{"=", "(", ")", ",", "/", "//", " ", "\t", "a", "b", "Z", "foo", "bar", "0", "7", "true", "false",
 	"é", "λ", "٣", "世", "\u00a0", "\u3000", "€", "²", "+", "k8s:", "x"}
 
-var tagsMarkers = []string{"+", "+", "+", "+k8s:", "//+", "#", "", "+x ", "+k8s://", "+a/", "λ", "+ x"}
+var tagsMarkers = []string{"+", "+", "+", "+k8s:", "//+", "#", "", "+x ", "+k8s://", "+a/", "λ", "+ x", "+k8s:=", "=", "+a=b ", "+=("}
 
 func tagsIsLD(r rune) bool {
 	if r < 128 {
